@@ -18,9 +18,9 @@ THEOREMS = [
     "Cspuz.C18.C18_initial",
     "Cspuz.C18.C18_reachable",
     "Cspuz.C18.C18_pure",
-    "Cspuz.C18.C18_isConnected_sound",
+    "Cspuz.C18.C18_isConnected",
     "Cspuz.C18.C18_split_halves",
-    "Cspuz.C18.C18_bfs_fuel",
+    "Cspuz.C18.C18_bfs_total",
 ]
 
 DEPTH = 100000  # recursion budget given to the model's `visit` (CPython's own limit is probed separately)
@@ -45,6 +45,8 @@ class FakeRandom:
         self.script = list(script) if script is not None else None  # forced randint values (replay)
 
     def randint(self, a, b):
+        if len(self.log) > 200000:
+            raise StopWalk("draw budget exhausted")
         if self.script is not None:
             if not self.script:
                 raise StopWalk("script exhausted")
@@ -276,6 +278,44 @@ def gen_args(rng, h, w):
     return args
 
 
+def random_partition(rng, h, w, k=None):
+    """A random partition of the h x w board into connected blocks, generated independently of the builder:
+    a random spanning tree of the grid graph with k-1 random tree edges removed (gives thin, branching shapes)."""
+    cells = [(y, x) for y in range(h) for x in range(w)]
+    edges = [((y, x), (y + 1, x)) for y in range(h - 1) for x in range(w)] + \
+            [((y, x), (y, x + 1)) for y in range(h) for x in range(w - 1)]
+    rng.shuffle(edges)
+    parent = {c: c for c in cells}
+
+    def find(c):
+        while parent[c] != c:
+            parent[c] = parent[parent[c]]
+            c = parent[c]
+        return c
+    tree = []
+    for a, b in edges:
+        ra, rb = find(a), find(b)
+        if ra != rb:
+            parent[ra] = rb
+            tree.append((a, b))
+    if k is None:
+        k = rng.randint(1, max(1, min(len(cells), 6)))
+    rng.shuffle(tree)
+    keep = tree[k - 1:] if k >= 1 else tree
+    parent = {c: c for c in cells}
+    for a, b in keep:
+        parent[find(a)] = find(b)
+    groups = {}
+    order = list(cells)
+    if rng.random() < 0.7:
+        rng.shuffle(order)
+    for c in order:
+        groups.setdefault(find(c), []).append(c)
+    bs = list(groups.values())
+    rng.shuffle(bs)
+    return bs
+
+
 def malformed_blocks(rng, h, w, good):
     """Initial blocks that are NOT a partition into connected blocks (the malformed stream)."""
     bs = [list(b) for b in good] if good else [[(y, x) for y in range(h) for x in range(w)]]
@@ -443,7 +483,9 @@ class Walk:
         inv = oracle_inv(self.h, self.w, self.args, cur)
         part = oracle_part(self.h, self.w, cur)
         given = self.args.get("initial_blocks") is not None
-        if not self.args.get("allow_unmet_constraints_first") and inv is not None and not (given and part is not None):
+        if self.h * self.w == 0:
+            self.ctx.count("initial:degenerate-board")
+        elif not self.args.get("allow_unmet_constraints_first") and inv is not None and not (given and part is not None):
             self.problem("initial:" + inv, f"initial() of {self.h}x{self.w} {self.args} returned {cur}: {inv}",
                          dict(self.base(), initial=True, bad=inv))
         if part is not None and not given:
@@ -458,6 +500,16 @@ class Walk:
                 cands, out, draws, rawvals = self.candidates(b, cur)
             except RecursionError:
                 self.problem("crash:RecursionError", "candidates RecursionError", dict(self.base(), state=canon_blocks(cur)))
+                return
+            except StopWalk:
+                self.problem("hang:candidates", "candidates drew more than 200000 random numbers",
+                             dict(self.base(), state=canon_blocks(cur)))
+                return
+            if cur != history[-1][1]:
+                self.problem("purity:candidates-modifies-current",
+                             f"candidates() modified its argument: {history[-1][1]} became {cur}",
+                             dict(self.base(), state=canon_blocks(history[-1][1]), draws=rawvals, cand=0,
+                                  bad="candidates-modifies-current"))
                 return
             self.q(["c18-cands", cfg_sx(self.h, self.w, self.args), canon_blocks(cur), draws], out, "candidates",
                    dict(self.base(), state=canon_blocks(cur), draws=rawvals))
@@ -492,7 +544,7 @@ class Walk:
         for live, snap in history:
             if live != snap:
                 self.problem("purity:earlier-value-modified", f"an earlier value changed later in the walk: {snap} became {live}",
-                             dict(self.base(), bad="earlier-value-modified"))
+                             None)
                 break
 
     def direct_calls(self, cur):
@@ -578,11 +630,13 @@ def gen_walks(ctx, n, steps, maxdim, check_all=20):
             h, w = rng.randint(1, maxdim), rng.randint(1, maxdim)
         args = gen_args(rng, h, w)
         r = rng.random()
-        if r < 0.12:
+        if r < 0.12 and h * w > 0:
             good = [p for p in pool if p[0] == (h, w)]
-            if good:
+            if good and rng.random() < 0.4:
                 args["initial_blocks"] = copy.deepcopy(rng.choice(good)[1])
-                ctx.count("initial_blocks:valid")
+            else:
+                args["initial_blocks"] = random_partition(rng, h, w)
+            ctx.count("initial_blocks:valid")
         elif r < 0.2:
             good = [p for p in pool if p[0] == (h, w)]
             args["initial_blocks"] = malformed_blocks(rng, h, w, rng.choice(good)[1] if good else None)
@@ -645,6 +699,22 @@ def probe_limits(ctx):
                          "(candidates is empty while the bounds are unmet)")
         except StopWalk:
             notes.append("initial() on 1x1 with min_num_blocks=2 does not terminate")
+    # degenerate boards: the single block built by initial() is empty
+    try:
+        r0 = mk_builder(0, 3, {"min_block_size": -1, "max_num_blocks": 5}).initial()
+        if r0 == [[]]:
+            notes.append("initial() on a 0x3 board with min_block_size=-1, max_num_blocks=5 (or with "
+                         "allow_unmet_constraints_first=True) returns [[]]: one EMPTY block; C18_initial assumes a board with "
+                         "at least one cell")
+    except Exception as e:
+        notes.append("initial() on a 0x3 board raises " + core.err_name(e))
+    # the `continue` of the merge scan also skips the other direction of the same cell
+    b = mk_builder(2, 2, {"max_block_size": 2})
+    cs = b.candidates([[(0, 0)], [(0, 1)], [(1, 0), (1, 1)]])
+    if not any(is_merge(u) for u in cs):
+        notes.append("candidates never proposes merging [(0,0)] and [(0,1)] in [[(0,0)],[(0,1)],[(1,0),(1,1)]] on 2x2 with "
+                     "max_block_size=2: the size test against the block below `continue`s past the test of the right "
+                     "neighbour (a missed candidate, not an invalid one; outside the property)")
     return notes
 
 
@@ -660,11 +730,20 @@ def correspond(ctx):
         "partition / connectivity / bounds of every proposed update (sampled above 20 per state) and that no earlier value "
         "is modified, also when the returned value is mutated afterwards; a case = one candidates() call, non-trivial when "
         "it proposes at least one update, distinct by (board, configuration, state)")
-    walks = gen_walks(ctx, ctx.n(300, 5000), 60, 6, check_all=ctx.n(20, 40))
+    walks = gen_walks(ctx, ctx.n(600, 5000), 60, 6, check_all=ctx.n(20, 40))
     compare(ctx, walks)
+    ctx.c18_problems = []
     for wk in walks:
         for (sig, what, data) in wk.problems:
             ctx.disagree("oracle:" + sig, what=what[:600], data=data)
+            ctx.c18_problems.append((sig, what, data))
+    if not ctx.quick():
+        # thorough tier: the exhaustive small-board search also runs on the unchanged tree
+        for f in search(ctx, None, walks=0):
+            ctx.disagree("search:" + f.signature, what=f.what, data=f.data)
+            ctx.c18_problems.append((f.signature, f.what, f.data))
+        ctx.extra["exhaustive"] = ("thorough tier: every state reachable within 4 proposed updates (all seed pairs) from initial() on "
+                                   "boards <= 3x3 for %d bound configurations, oracle on every proposed update" % len(SEARCH_CONFIGS))
     notes = probe_limits(ctx)
     ctx.notes.extend(notes)
     ctx.extra["aliasing"] = (
@@ -687,6 +766,10 @@ def correspond(ctx):
 # bounded search on the real code against the oracle
 
 
+class CurrentModified(Exception):
+    pass
+
+
 class Cycler:
     """`random` replacement that enumerates seed pairs: call number c, k-th pair drawn for a block of length n in this
     call -> the ((c * 2(n-1) + k) mod n(n-1))-th ordered pair of distinct indices."""
@@ -696,18 +779,25 @@ class Cycler:
         self.k = {}
         self.pending = None
         self.vals = []
+        self.foreign = 0
 
     def randint(self, a, b):
+        if len(self.vals) > 20000:
+            raise StopWalk("draw budget exhausted")
         n = b + 1
-        if self.pending is None:
+        if self.pending is not None and self.pending[0] != (a, b):
+            # not the second draw of a seed pair (code under test draws something else): alternate over the range
+            self.foreign += 1
+            v = a + (self.foreign + self.c) % max(n - a, 1)
+        elif self.pending is None:
             k = self.k.get(n, 0)
             self.k[n] = k + 1
-            allp = [(i, j) for i in range(n) for j in range(n) if i != j]
+            allp = [(i, j) for i in range(n) for j in range(n) if i != j] or [(0, 0)]
             p = allp[(self.c * 2 * (n - 1) + k) % len(allp)]
-            self.pending = p[1]
+            self.pending = ((a, b), p[1])
             v = p[0]
         else:
-            v = self.pending
+            v = self.pending[1]
             self.pending = None
         self.vals.append(v)
         return v
@@ -721,10 +811,16 @@ def all_candidates(b, cur):
     out = []
     seen = set()
     ncalls = max([1] + [(len(blk) + 1) // 2 for blk in cur])
+    snap = copy.deepcopy(cur)
     for c in range(ncalls):
         fake = Cycler(c)
         with patched_random(fake):
-            cands = b.candidates(cur)
+            try:
+                cands = b.candidates(cur)
+            except StopWalk:
+                continue
+        if cur != snap:
+            raise CurrentModified(snap, list(fake.vals))
         for k, u in enumerate(cands):
             key = repr(u)
             if key not in seen:
@@ -761,13 +857,23 @@ def check_update(h, w, args, b, cur, u, inv_before=True):
     return bad, nxt
 
 
-def search(ctx, why, depth=4, cap=None):
+def search(ctx, why, depth=4, cap=400000, walks=None):
     found = {}
-    cap = cap or ctx.n(6000, 60000)
 
     def add(sig, what, data):
         if sig not in found:
             found[sig] = Finding(sig, what[:800], data)
+
+    # 0. what the correspondence run's oracle already saw (re-checked through replay)
+    for (sig, what, data) in getattr(ctx, "c18_problems", []):
+        if why is None or data is None:
+            continue
+        try:
+            f = replay(ctx, _jsonable(data))
+        except Exception:
+            f = None
+        if f is not None:
+            add(f.signature, f.what, f.data)
 
     # 1. exhaustive: every state reachable within `depth` updates on boards <= 3x3
     total = 0
@@ -796,6 +902,11 @@ def search(ctx, why, depth=4, cap=None):
                         total += 1
                         try:
                             cs = all_candidates(b, cur)
+                        except CurrentModified as e:
+                            add("purity:candidates-modifies-current", f"candidates() modified its argument {e.args[0]} ({h}x{w} {args})",
+                                {"h": h, "w": w, "args": args, "state": canon_blocks(e.args[0]), "draws": e.args[1], "cand": 0,
+                                 "bad": "candidates-modifies-current"})
+                            continue
                         except Exception as e:
                             add("crash:candidates-" + core.err_name(e), f"candidates raised {core.err_name(e)} on {cur} ({h}x{w} {args})",
                                 {"h": h, "w": w, "args": args, "state": canon_blocks(cur), "draws": [], "cand": 0, "bad": "crash"})
@@ -813,12 +924,47 @@ def search(ctx, why, depth=4, cap=None):
                                 nxt_frontier.append(nxt)
                     frontier = nxt_frontier
     ctx.count("search:states-expanded", total)
-    # 2. random walks with the oracle on every proposed update (larger boards, deeper)
-    walks = gen_walks(ctx, ctx.n(150, 1500), 60, 6, check_all=None)
-    for wk in walks:
+    if total >= cap:
+        ctx.notes.append("search: state cap %d reached, the depth-%d enumeration is incomplete" % (cap, depth))
+    # 2. random partitions generated independently of the builder (spanning-tree shapes), every seed pair
+    if walks != 0:
+        for _ in range(ctx.n(400, 4000)):
+            h, w = ctx.rng.randint(1, 5), ctx.rng.randint(1, 5)
+            args = ctx.rng.choice(SEARCH_CONFIGS)
+            cur = random_partition(ctx.rng, h, w)
+            if oracle_inv(h, w, args, cur) is not None:
+                continue
+            b = mk_builder(h, w, dict(args))
+            try:
+                cs = all_candidates(b, cur)
+            except CurrentModified as e:
+                add("purity:candidates-modifies-current", f"candidates() modified its argument {e.args[0]} ({h}x{w} {args})",
+                    {"h": h, "w": w, "args": args, "state": canon_blocks(e.args[0]), "draws": e.args[1], "cand": 0,
+                     "bad": "candidates-modifies-current"})
+                continue
+            except Exception as e:
+                add("crash:candidates-" + core.err_name(e), f"candidates raised {core.err_name(e)} on {cur} ({h}x{w} {args})",
+                    {"h": h, "w": w, "args": args, "state": canon_blocks(cur), "draws": [], "cand": 0, "bad": "crash"})
+                continue
+            ctx.count("search:random-partitions")
+            for (u, vals, k) in cs:
+                bad, nxt = check_update(h, w, args, b, cur, u)
+                if bad:
+                    add("invariant:" + bad if "previous" not in bad else "purity:" + bad,
+                        f"{h}x{w} {args}: update {u} proposed for {cur} gives {nxt}: {bad}",
+                        {"h": h, "w": w, "args": args, "state": canon_blocks(cur), "draws": vals, "cand": k, "bad": bad})
+    # 3. random walks with the oracle on every proposed update (larger boards, deeper)
+    nw = ctx.n(150, 1500) if walks is None else walks
+    for wk in (gen_walks(ctx, nw, 60, 6, check_all=None) if nw else []):
         for (sig, what, data) in wk.problems:
-            add(sig, what, data)
+            if data is not None:
+                add(sig, what, data)
     return list(found.values())
+
+
+def _jsonable(x):
+    import json
+    return json.loads(json.dumps(x, default=str))
 
 
 def _tup(bs):
@@ -858,6 +1004,7 @@ def replay(ctx, data):
     if "state" not in data:
         return None
     cur = _tup(data["state"])
+    before = copy.deepcopy(cur)
     fake = FakeRandom(None, script=data.get("draws") or [])
     with patched_random(fake):
         try:
@@ -868,6 +1015,8 @@ def replay(ctx, data):
             if data.get("bad") == "crash":
                 return Finding("crash:candidates-" + core.err_name(e), f"candidates raised {core.err_name(e)} on {cur}", data)
             return None
+    if cur != before:
+        return Finding("purity:candidates-modifies-current", f"candidates() modified its argument: {before} became {cur}", data)
     k = data.get("cand", 0)
     if k >= len(cands):
         return None
